@@ -188,8 +188,8 @@ PROPS = {
     ),
     'C06': dict(
         title='discovery = declaration; invariance', proj='proj_full', oracle='c06',
-        quick=[S_('programs', count=3000), S_('progexec', count=3000, ops=('declared', 'variants')), S_('visitor_adv', nc=4), S_('probes_c06', nc=1)],
-        thorough=[S_('programs', count=60000), S_('progexec', count=60000, ops=('declared', 'variants')), S_('visitor_adv', nc=4), S_('probes_c06', nc=1)],
+        quick=[S_('programs', count=3000), S_('progexec', count=3000, ops=('declared', 'variants')), S_('visitor_adv', nc=4), S_('probes_c06', nc=1), S_('programs_hint', count=6000)],
+        thorough=[S_('programs', count=60000), S_('progexec', count=60000, ops=('declared', 'variants')), S_('visitor_adv', nc=4), S_('probes_c06', nc=1), S_('programs_hint', count=60000)],
         runtime_part='the modifiers hint protocol, functools.wraps-only decorators, real name resolution',
         level_text='visitor = ground truth on the forwarding grammar and hence discovery = explicit declaration (computed from the ground truth with the algebra) are theorems about the model, as is '
                    'invariance under decoy calls / unrelated statements / assignment targets; on the real code every generated wrapper is compared with the declaration computed through the public '
